@@ -385,15 +385,23 @@ func pmmvBuildInfo(cfg *pmmvConfig) []byte {
 			pad()
 		}
 	}
+	// the entry size is the bootloader's to choose (a multiple of 8, at least 24): a function of the configuration,
+	// a third of the maps each with 24-, 32- and 40-byte entries; the bytes behind the defined fields look like
+	// another entry that says "available"
+	es := 24 + 8*int((uint64(len(cfg.Regions))+cfg.KStart>>12+uint64(cfg.Decoys))%3)
 	u32(6) // memory map
-	u32(uint32(16 + 24*len(cfg.Regions)))
-	u32(24) // entry size
-	u32(0)  // entry version
+	u32(uint32(16 + es*len(cfg.Regions)))
+	u32(uint32(es)) // entry size
+	u32(0)          // entry version
 	for _, rg := range cfg.Regions {
 		u64(rg.Addr)
 		u64(rg.Len)
 		u32(rg.Type)
 		u32(0)
+		for k := 24; k < es; k += 8 {
+			u32(1)
+			u32(0)
+		}
 	}
 	pad()
 	u32(0) // end tag
